@@ -48,6 +48,7 @@ inline void judge(Ctx& C, const std::string& text, int limit, uint64_t& dontCare
   DeserializationError err = deserializeJson(doc, text.c_str(), DeserializationOption::NestingLimit(uint8_t(limit)));
   int code = libCode(err);
   if (!R.zone.empty()) zones[R.zone]++;
+  C.outcome(std::string(err.c_str()) + (R.accept == dialect::ANY ? "/dontcare" : "/judged") + (limit == 1 ? "@1" : "@10"));
   if (R.accept == dialect::ANY) {
     dontCare++;
     return;
@@ -112,8 +113,6 @@ inline void run(Ctx& C) {
   C.metrics["dontcare_verdicts"] += double(dontCare);
   for (auto& kv : zones) C.metrics["zone:" + kv.first] += double(kv.second);
   // outcome histogram is expensive per case; summarise by zone instead
-  C.outcome("sequences-judged");
-  C.outcome("dontcare");
   C.bound("all token sequences of length <= " + std::to_string(nFull) + " over the " + std::to_string(full.size()) + "-token alphabet and length <= " +
           std::to_string(nCore) + " over the " + std::to_string(core.size()) + "-token core, nesting limits 10 and 1, build " + cfgTag());
 }
